@@ -94,7 +94,13 @@ func vpH_c14_payload() {
 	switch kind {
 	case 27: // repository URLs that a URL library would print alike are different repositories
 		// (concrete spellings: code that hands them to a URL library can be followed)
-		switch vpInt(0, 2) {
+		switch vpInt(0, 5) {
+		case 3: // another port is another server
+			w1.repo, w2.repo = "ssh://git@h.example:2222/o/r.git", "ssh://git@h.example:2223/o/r.git"
+		case 4:
+			w1.repo, w2.repo = "https://h.example/o/r.git", "https://h.example/o/r"
+		case 5:
+			w1.repo, w2.repo = "https://h.example:8443/o/r", "https://h.example/o/r"
 		case 0:
 			w1.repo, w2.repo = "rx", "rx#"
 		case 1:
